@@ -47,6 +47,7 @@ eav_setup (eav_t *eav)
         eav->utf8_cb = is_6531_email;
         return init_idn (eav);
     default:
+        eav->errcode = EEAV_INVALID_RFC;
         return EEAV_INVALID_RFC;
     }
 
